@@ -76,6 +76,11 @@ CHECKS["C09"] = dict(
    text="Generated-input search with an explicit oracle: tables with numeric (incl. NaN) and categorical axes in all four combinations and regions of every 2-d kind with edges placed around the integer category positions are turned into selections the way the viewers do; each element must be selected exactly when its plotted position (category index for categorical axes, computed by the harness) lies in the region according to the signed-distance oracle, boundary band excepted.",
    note="Trusted: pbt/oracles/geometry.py; band widened by the 100-gon error where the code polygonises; category order = sorted unique labels.",
    ref="DESIGN.md section 4 C09")
+CHECKS["C05"] = dict(
+   technique="stateful property-based testing (Hypothesis op lists) with a fresh-rebuild oracle: long-lived objects vs. never-evaluated copies built from their current parameters",
+   text="History search with a differential oracle: generated interleavings of reads (masks with views, statistics, histograms, derived and linked values) and mutations (update_components, update_values_from_data incl. new shapes, move_to, ROI field edits, state setters at any depth, state replacement, link add/remove/replace) run on long-lived objects; after every mutation each observable must equal the one from brand-new objects rebuilt from the live objects' current parameters. Histogram layer states (settings) and live histogram/profile viewers (data updates) are covered the same way.",
+   note="Trusted: the parameter read-back in pbt/props/c05.py (rebuild_state/rebuild_roi). One open finding (direct ROI field edit under a composite) is suppressed by its exact signature and reproduced on every run.",
+   ref="DESIGN.md section 4 C05")
 NOT_APPLICABLE = []
 
 def main():
